@@ -518,6 +518,32 @@ def _check_count_in(prog: Program, res: Result, fi) -> None:
            "the first num_instances rows as the labelled animals, so a labelled animal is cut from (or padding is drawn into) the targets", fi.where)
 
 
+def check_target_grid_size(prog: Program, res: Result) -> None:
+    """The targets are drawn on the grid of the image they are returned with: wherever a dataset calls
+    generate_confmaps / generate_multiconfmaps, `img_hw` is the `.shape[-2:]` of that very image (after cropping, resizing
+    and padding) - not a configured size, which differs from the padded image whenever the crop size is not a multiple of the
+    maximum stride."""
+    R = "C01-grid"
+    n = 0
+    gens = ("sleap_nn.data.confidence_maps:generate_confmaps", "sleap_nn.data.confidence_maps:generate_multiconfmaps")
+    for fi in prog.all_functions():
+        if not fi.module.name.startswith(("sleap_nn.data.custom_datasets", "sleap_nn.data.streaming_datasets")):
+            continue
+        for c, q in prog.calls_in(fi):
+            if q not in gens:
+                continue
+            n += 1
+            res.touch(fi)
+            a = astq.bind_args(prog.func(q), c).get("img_hw")
+            e = astq.expand_at(fi.node, a, enclosing_stmt(c)) if a is not None else None
+            txt = norm(e) if e is not None else ""
+            ok = ".shape" in txt and "self." not in txt.split(".shape")[0].replace("self.transform", "")
+            res.ob(R, ok, fi.qualname, f"{q.split(':')[1]}: img_hw is the shape of the returned image",
+                   f"`{short(c, 50)}` draws its targets on a grid of size `{short(e, 40) if e is not None else '?'}`, which is not the shape of the image in the sample: the target grid "
+                   "and the (padded) network input disagree", f"{fi.module.relpath}:{c.lineno}")
+    res.ob(R, n >= 6, "sleap_nn.data", "dataset target calls found", f"only {n} dataset calls of the confidence-map generators found", "")
+
+
 def check(prog: Program, res: Result) -> None:
     from . import _batch
     _batch.check_every_iteration_accumulates(prog, res, "C01-max", ["sleap_nn.data.confidence_maps:make_multi_confmaps"])
@@ -531,6 +557,7 @@ def check(prog: Program, res: Result) -> None:
     check_grid(prog, res)
     check_max(prog, res)
     check_count(prog, res)
+    check_target_grid_size(prog, res)
     from . import _reshape
     _reshape.check_merge_split_order(prog, res, "C01-reshape", ["sleap_nn.data."])
     res.assumptions += ["sigma > 0 and output_stride > 0", "the exact Gaussian value, 'largest at the nearest cell' and the output shape arithmetic are not decided"]
